@@ -892,17 +892,97 @@ impl Sim {
         serde_json::json!({"jsonrpc": "2.0", "id": 1, "method": method, "params": params}).to_string()
     }
 
+    /// The honest peer message of handler operation `op` (9..12), built from the state as it
+    /// is now: (protocol, session, bytes).
+    fn pair_message(&self, op: u64) -> Option<(Proto, usize, Bytes)> {
+        let c = self.client.as_ref()?;
+        // the first connected peer (in peer order) that the client has proven, else any connected
+        let mut cands: Vec<(usize, usize)> = self
+            .peers
+            .iter()
+            .filter_map(|p| p.session.map(|s| (p.idx, s)))
+            .collect();
+        cands.sort();
+        let proven: Vec<(usize, usize)> = cands
+            .iter()
+            .cloned()
+            .filter(|(_, s)| {
+                c.peers
+                    .get_state(&PeerIndex::new(*s))
+                    .map(|st| st.get_prove_state().is_some())
+                    .unwrap_or(false)
+            })
+            .collect();
+        match op {
+            9 => {
+                let (p, s) = *cands.first()?;
+                let m = crate::server::lc_msg(crate::server::send_last_state(&self.world, self.peers[p].view));
+                Some((Proto::LightClient, s, m.as_bytes()))
+            }
+            10 => {
+                let (p, s) = *proven.first()?;
+                let mf = c.storage.get_min_filtered_block_number();
+                let m = crate::server::block_filters(&self.world, self.peers[p].view, &self.peer_cfg(p), mf + 1)?;
+                Some((Proto::Filter, s, crate::server::filter_msg(m).as_bytes()))
+            }
+            11 => {
+                let (_, s) = *proven.first()?;
+                let map = c.peers.matched_blocks().read().unwrap_or_else(|e| e.into_inner());
+                let mut wanted: Vec<packed::Byte32> = map
+                    .iter()
+                    .filter(|(_, (proved, block))| *proved && block.is_none())
+                    .map(|(h, _)| h.pack())
+                    .collect();
+                wanted.sort_by(|a, b| a.as_slice().cmp(b.as_slice()));
+                let h = wanted.first()?.clone();
+                let m = crate::server::send_block(&self.world, &h)?;
+                Some((Proto::Sync, s, m.as_bytes()))
+            }
+            12 => {
+                for (p, s) in cands.iter() {
+                    if let Some(st) = c.peers.get_state(&PeerIndex::new(*s)) {
+                        if let Some(req) = st.get_prove_request() {
+                            if let crate::server::ProofAnswer::Reply(m, _) =
+                                crate::server::last_state_proof(&self.world, self.peers[*p].view, req.get_content())
+                            {
+                                return Some((Proto::LightClient, *s, crate::server::lc_msg(m).as_bytes()));
+                            }
+                        }
+                    }
+                }
+                None
+            }
+            _ => None,
+        }
+    }
+
     fn pair_job(&self, op: u64) -> Option<crate::runner::PairJob> {
         let c = self.client.as_ref()?;
+        let seed = crate::entropy::mix(&[self.plan.seed, 0xc17, op]);
+        if op >= 9 {
+            let (proto, session, data) = self.pair_message(op)?;
+            let handler = c.twin(proto, &self.world.consensus)?;
+            return Some(crate::runner::PairJob {
+                io: c.io.clone(),
+                request: String::new(),
+                seed,
+                deliver: Some(crate::runner::PairDeliver {
+                    handler,
+                    nc: c.ctx_for(proto),
+                    peer: PeerIndex::new(session),
+                    data,
+                }),
+            });
+        }
         Some(crate::runner::PairJob {
             io: c.io.clone(),
             request: self.pair_request(op),
-            seed: crate::entropy::mix(&[self.plan.seed, 0xc17, op]),
+            seed,
+            deliver: None,
         })
     }
 
-    fn run_pair_b_alone(&mut self, op: u64) -> Option<String> {
-        let job = self.pair_job(op)?;
+    fn run_pair_job_alone(&mut self, job: crate::runner::PairJob) -> Option<String> {
         let mut rx = crate::runner::spawn_pair(job);
         match rx.recv_timeout(std::time::Duration::from_secs(20)) {
             Ok(r) => Some(r),
@@ -940,9 +1020,31 @@ impl Sim {
             self.harness_error = Some("pair event without a client".into());
             return;
         }
+        // B is built from the state before A in every execution, so that it is the same B
+        let job = match self.pair_job(op) {
+            Some(j) => j,
+            None => {
+                // no such message can be sent in this state: nothing to pair
+                self.stat("probe.c17.no_such_message_now");
+                self.dispatch(ev);
+                self.snapshot = None;
+                return;
+            }
+        };
+        // two handlers of one protocol never run at the same time
+        if let (Some(d), Ev::ToClient { proto, .. } | Ev::Timer { proto, .. }) = (job.deliver.as_ref(), &ev) {
+            let b_proto = d.nc.protocol_id();
+            if b_proto == crate::client::Proto::support(*proto).protocol_id() {
+                self.stat("probe.c17.same_protocol_not_paired");
+                self.dispatch(ev);
+                self.snapshot = None;
+                return;
+            }
+        }
         match mode.as_str() {
             "before" => {
-                let r = self.run_pair_b_alone(op);
+                let r = self.run_pair_job_alone(job);
+                self.flush(None);
                 self.dispatch(ev);
                 self.pair_answer = r.map(|r| (false, r));
             }
@@ -951,7 +1053,8 @@ impl Sim {
                 if self.client.is_none() {
                     return;
                 }
-                let r = self.run_pair_b_alone(op);
+                let r = self.run_pair_job_alone(job);
+                self.flush(None);
                 self.pair_answer = r.map(|r| (false, r));
             }
             "after_span" => {
@@ -959,16 +1062,12 @@ impl Sim {
                 if self.client.is_none() {
                     return;
                 }
-                let r = self.run_pair_b_alone(op);
+                let r = self.run_pair_job_alone(job);
                 self.pair_answer = r.map(|r| (false, r));
             }
             "reader_mid" => {
                 // the reader is parked at one of its iteration points; the writer (this event)
                 // runs to completion; the reader resumes
-                let job = match self.pair_job(op) {
-                    Some(j) => j,
-                    None => return,
-                };
                 let park_at = 1 + write % 3;
                 let (erx, rtx, handle) = crate::runner::spawn_parked_reader(job, park_at);
                 let mut answer: Option<String> = None;
@@ -1011,10 +1110,6 @@ impl Sim {
                 self.pair_answer = answer.map(|r| (parked, r));
             }
             _ => {
-                let job = match self.pair_job(op) {
-                    Some(j) => j,
-                    None => return,
-                };
                 crate::runner::arm_pause(write, job);
                 self.dispatch(ev);
                 if crate::runner::take_paused_at_lock_intent() {
